@@ -45,6 +45,15 @@ func mutateParam(raw string, salt int) (string, bool) {
 }
 
 // normParam makes stored and submitted JSON comparable (numbers may be stored quoted; decimals padded).
+func containsKey(keys []string, k string) bool {
+	for _, x := range keys {
+		if x == k {
+			return true
+		}
+	}
+	return false
+}
+
 func normParam(raw string) string {
 	t := strings.TrimSpace(raw)
 	if reQInt.MatchString(t) {
@@ -116,8 +125,26 @@ func checkC36(r *ev.Run) {
 				handed = cand
 			}
 		}
+		// some scripts hand over one of the two parameters whose name is a proper prefix-extension of another parameter's
+		// name, and submit the list in reverse order (the order of the list carries no meaning)
+		reversed := false
+		switch si % 8 {
+		case 5:
+			handed, reversed = "pos/RelaysToTokensMultiplierMap", true
+		case 1:
+			handed, reversed = "pos/ServicerStakeFloorMultiplierExponent", true
+		}
+		if !containsKey(keys, handed) {
+			handed, reversed = "gov/daoOwner", false
+		}
+		src := append([]aclEntry{}, acl...)
+		if reversed {
+			for i, j := 0, len(src)-1; i < j; i, j = i+1, j-1 {
+				src[i], src[j] = src[j], src[i]
+			}
+		}
 		newACL := make([]map[string]string, 0, len(acl))
-		for _, e := range acl {
+		for _, e := range src {
 			a := e.Addr
 			if e.Key == handed {
 				a = chain.AddrHex(otherOwner)
